@@ -40,6 +40,31 @@ def overlapping(log):
     return False
 
 
+def reentrant_split(log):
+    """True when an application callback delivered by the link-error handler entered another transition function on
+    the same thread before the handler had delivered its last callback (e.g. close_link called from the disconnected
+    callback of a link failure, connection_lost still to come): the outer transition is split in two by the inner one,
+    which the atomic lifecycle model cannot express (the oracle still judges the run)."""
+    log = [e for e in log if e[0] != 'rx']
+    for i, e in enumerate(log):
+        if e[0] == 'ev' and e[1] == 'err':
+            th = e[2]
+            seen_cb = False
+            inner = False
+            for f in log[i + 1:]:
+                if f[2] != th:
+                    continue
+                if f[0] == 'cb' and f[1] in ('disconnected', 'connection_failed') and not inner:
+                    seen_cb = True
+                elif f[0] == 'ev' and f[1] in ('close', 'open', 'err') and seen_cb:
+                    inner = True
+                elif f[0] == 'cb' and f[1] == 'connection_lost':
+                    if inner:
+                        return True
+                    break
+    return False
+
+
 def dispatcher_in_flight_at_disconnect(log):
     """True when a close_link / link-error handler was entered while the dispatcher thread was in the middle of
     processing a received packet (between receive_packet returning a packet and the next receive_packet call)."""
@@ -47,6 +72,9 @@ def dispatcher_in_flight_at_disconnect(log):
     for e in log:
         if e[0] == 'rx':
             inflight = (e[1] == 'rx_got')
+        elif e[0] == 'ev' and e[1] in ('close', 'err') and e[2].startswith('IncomingPacketHandler'):
+            inflight = False      # the dispatcher itself ends the connection (application callback, sending-thread
+            #                       fault): what it still does afterwards is the tail of that same transition
         elif e[0] == 'ev' and e[1] in ('close', 'err') and inflight and not e[2].startswith('IncomingPacketHandler'):
             return True
     return False
